@@ -13,8 +13,8 @@ CONSTANTS
   MaxCycles = 2
   RecheckUnderLock = TRUE
   GuardedConn = TRUE
-  PerCycleWG = TRUE
-  Script <- MCScriptD
+  PerCycleWG = FALSE
+  Script <- MCScriptC
 VIEW view
 INVARIANTS MutualExclusion FifoPrefix AtMostOnce ExactlyOnce NoPanic AfterShutdown NoLateStart Accounted
 PROPERTY AppendOnly
